@@ -107,12 +107,12 @@ def c02(tier):
                 label="MCScpiRun legacy %s" % leg)
     # 2. spec -> code: every history in one run buffer; a seeded sample also one run call per
     #    message and through process (single read, byte-wise)
-    budget = 40000 if tier == "quick" else 400000
+    budget = 25000 if tier == "quick" else 400000
     s.rng.shuffle(hist)
     cases = []
     for h in hist[:budget]:
         cases.append(run_case(b"".join(bytes(m) for m in h)))
-    nsamp = 4000 if tier == "quick" else 40000
+    nsamp = 2500 if tier == "quick" else 40000
     for h in hist[:nsamp]:
         whole = b"".join(bytes(m) for m in h)
         cases.append(runs_case([bytes(m) for m in h]))
